@@ -80,7 +80,10 @@ def load(source, rows, tag):
     (object, rows_as_seen): the (wavelength, value, error, width) rows the statement is about."""
     if source == 'array':
         from taurex.data.spectrum import ArraySpectrum
-        return ArraySpectrum(rows.copy()), rows
+        buf = rows.copy()
+        o = ArraySpectrum(buf)
+        o._verif_input_buffer = buf       # kept so that the caller's buffer can be reused after loading
+        return o, rows
     if source == 'text':
         from taurex.data.spectrum.observed import ObservedSpectrum
         d = fx.fresh_dir('c17_text')
@@ -158,6 +161,15 @@ def case_fn(case):
             r.check(False, 'no-exception', 'obs/raised/%s/%s' % (type(ex).__name__, cls), exc=repr(ex), rows=keep)
             continue
         r.observe(*[snap[a] for a in ATTRS])
+        buf = getattr(o, '_verif_input_buffer', None)
+        if buf is not None:
+            # the caller reuses its buffer for the next spectrum (rows reversed, values refilled): the loaded
+            # observation must not change with it
+            buf[:] = buf[::-1].copy()
+            buf[:, 1] *= 1.7
+            snap2 = snapshot(o)
+            same = all(np.array_equal(snap[a], snap2[a]) for a in ATTRS)
+            r.check(same, 'independent-of-input-buffer', 'obs/aliases-input-buffer/' + cls, rows=keep)
         R = ref.observation(seen)
         tol = 1e-12
         ok = True
